@@ -292,11 +292,11 @@ func isCenterAdjacent(p *tak.Position, m tak.Move) bool {
 			((m.Y == mid-1 || m.Y == mid+1) && m.X == mid)
 	}
 	if (m.X >= mid-1 && m.X <= mid) &&
-		(m.Y >= mid-2 || m.Y <= mid+1) {
+		(m.Y >= mid-2 && m.Y <= mid+1) {
 		return true
 	}
 	if (m.X >= mid-2 && m.X <= mid+1) &&
-		(m.Y >= mid-1 || m.Y <= mid) {
+		(m.Y >= mid-1 && m.Y <= mid) {
 		return true
 	}
 	return false
@@ -414,22 +414,18 @@ func (c *Cairn) GetMove(p *tak.Position) (tak.Move, bool) {
 			Type: tak.PlaceFlat, X: x, Y: y,
 		}, true
 	case 4:
-		// white slides to center
-		wx := int(c.whitePlace.X)
-		wy := int(c.whitePlace.Y)
-		mid := int(p.Size() / 2)
-		var ty tak.MoveType
-		if p.Size()%2 == 1 {
-			ty = dir(wx, wy, mid, mid)
-		} else {
-			if wx == mid || wy == mid {
-				ty = dir(wx, wy, mid, mid)
-			} else {
-				ty = dir(wx, wy, mid-1, mid-1)
+		// white slides to a center square next to black's stone
+		for _, ty := range []tak.MoveType{
+			tak.SlideLeft, tak.SlideRight, tak.SlideUp, tak.SlideDown} {
+			m := tak.Move{Type: ty, X: c.whitePlace.X, Y: c.whitePlace.Y,
+				Slides: tak.MkSlides(1)}
+			dx, dy := m.Dest()
+			if isCentered(p, tak.Move{X: dx, Y: dy}) &&
+				distance(dx, dy, c.blackPlace.X, c.blackPlace.Y) == 1 {
+				return m, true
 			}
 		}
-		return tak.Move{Type: ty, X: int8(wx), Y: int8(wy),
-			Slides: tak.MkSlides(1)}, true
+		panic("no slide to the center")
 	case 5:
 		return tak.Move{
 			Type: dir(int(c.blackPlace.X), int(c.blackPlace.Y),
